@@ -4,6 +4,7 @@ import (
 	"bytes"
 	"fmt"
 	"reflect"
+	"strings"
 
 	hessian "github.com/vogo/gohessian"
 
@@ -207,7 +208,65 @@ func (c02) Rule() string {
 }
 func (c02) ProcOpts() Proc { return Proc{RlimitAS: 4 << 30, MaxStack: 256 << 20} }
 func (c02) Cases(tier string, seed int64, kf *KnownFindings) []Case {
-	return zooCases(tier, seed)
+	cs := zooCases(tier, seed)
+	cs = append(cs, Case{Kind: "badutf8", Seed: Mix(seed, 90001), Count: len(badUTF8) * 5, Sub: -1})
+	return cs
+}
+
+// Go strings that are not valid UTF-8. What such a string should denote is not specified; what IS
+// specified is that whatever the encoder emits for it is one well-formed value with nothing
+// missing or left over (an encode error is acceptable as well). The content of the strings is
+// compared after replacing every invalid byte by U+FFFD and a difference there is only counted.
+var badUTF8 = []string{"caf\xe9", "ab\xe4\xb8", "\xff", "\xc3", "a\x80b", "\xf0\x9f\x98", "\xed\xa0\x80", "ok\xc0\xaf", "\xe9t\xe9", "é\xe9", "\xe4\xb8\x96\xe4\xb8", "\x80\x80\x80\x80",
+	strings.Repeat("a", 2047) + "\xe4\xb8", strings.Repeat("\xe9", 1030), strings.Repeat("z", 31) + "\xc3"}
+
+func c02badUTF8(c Case, env *Env, res *Result) {
+	lo, hi := subRange(c)
+	for j := lo; j < hi; j++ {
+		bad := badUTF8[j%len(badUTF8)]
+		build := func(s string) interface{} {
+			switch j / len(badUTF8) {
+			case 0:
+				return &zoo.WithInner{X: zoo.Inner{A: 3, S: s}, P: &zoo.Inner{A: 4, S: s}, N: 6}
+			case 1:
+				return &zoo.SlStr{V: []string{s, "next", s, "last"}}
+			case 2:
+				return &zoo.MpStrStr{M: map[string]string{s: "v"}}
+			case 3:
+				return []interface{}{s, int32(0), s, int32(16)}
+			default:
+				return &zoo.MpStrI32{M: map[string]int32{"k" + s: 0}}
+			}
+		}
+		raw, twin := build(bad), build(string([]rune(bad)))
+		env.J(c.Idx, j)
+		cc := c
+		cc.Sub = j
+		res.Evals++
+		res.NT = append(res.NT, Hash64(fmt.Sprintf("badutf8|%d", j)))
+		feats := []string{"invalid-utf8-string", fmt.Sprintf("shape=%d", j/len(badUTF8))}
+		var wire []byte
+		var nm map[string]string
+		var err error
+		pi, _ := Guard(func() {
+			_, nm = hessian.ExtractTypeNameMap(raw)
+			wire, err = hessian.ToBytes(raw, copyNames(nm))
+		})
+		switch {
+		case pi != nil:
+			env.Viol(res, Violation{Class: "panic@encode", Features: feats, Detail: pi.Msg, Case: cc, Input: fmt.Sprintf("%q", bad)})
+		case err != nil:
+			res.Count("invalid_utf8_rejected_with_error", 1)
+		default:
+			res.Count("invalid_utf8_strings_encoded", 1)
+			cls, d := wireCheck(twin, nm, wire, nil)
+			if cls == "wire-mismatch:string" || cls == "wire-mismatch:map-key" {
+				res.Count("invalid_utf8_content_differs_from_U+FFFD_replacement(not judged)", 1)
+			} else if cls != "" {
+				env.Viol(res, Violation{Class: cls, Features: feats, Detail: fmt.Sprintf("string %q: %s", bad, d), Case: cc, Input: fmt.Sprintf("%q", bad)})
+			}
+		}
+	}
 }
 
 // wireCheck parses emitted bytes and compares them with the intended abstract value.
@@ -242,6 +301,10 @@ func wireCheck(val interface{}, nameMap map[string]string, wire []byte, res *Res
 
 func (c02) Run(c Case, env *Env) Result {
 	var res Result
+	if c.Kind == "badutf8" {
+		c02badUTF8(c, env, &res)
+		return res
+	}
 	lo, hi := c.From, zooCount(c)
 	if c.Sub >= 0 {
 		lo, hi = c.Sub, c.Sub+1
